@@ -970,7 +970,14 @@ class Exec:
             if kind == 'Transmute' and tk['k'] == 'int':
                 if tk['bits'] == 64 and isinstance(v, SrcPtr):
                     return simp(self.src_base + as_bv(v.off, U))
+                if isinstance(v, (int, bool)) or is_sym(v):
+                    sk = self.p.kind(src_ty)
+                    if sk['k'] in ('int', 'bool', 'char') and self.p.ty(src_ty).get('size') == self.p.ty(ty).get('size'):
+                        return v if not isinstance(v, bool) else int(v)
                 raise EngineError(f'transmute of {v!r} to integer')
+            if kind == 'Transmute' and (isinstance(v, (int, bool)) or is_sym(v)):
+                # integer reinterpreted as pointer/NonNull/...: only used to build panic payloads
+                return Opaque('transmuted-int')
             if isinstance(v, (SrcPtr, Ref, ConstBytes)):
                 return v
             if isinstance(v, SrcSlice):
